@@ -752,6 +752,18 @@ impl std::str::FromStr for Package {
     }
 }
 
+/// Parse a date as written in Release files: RFC 2822, where apt writes the
+/// zone as "UTC" (which RFC 2822 parsers do not know).
+#[cfg(feature = "chrono")]
+fn parse_release_date(s: &str) -> Option<chrono::DateTime<chrono::FixedOffset>> {
+    let s = s.trim();
+    let normalized = match s.strip_suffix(" UTC") {
+        Some(rest) => format!("{} +0000", rest),
+        None => s.to_string(),
+    };
+    chrono::DateTime::parse_from_rfc2822(&normalized).ok()
+}
+
 /// A release in the APT package manager.
 pub struct Release(deb822_lossless::Paragraph);
 
@@ -839,10 +851,7 @@ impl Release {
     #[cfg(feature = "chrono")]
     /// Get the date of the release
     pub fn date(&self) -> Option<chrono::DateTime<chrono::FixedOffset>> {
-        self.0
-            .get("Date")
-            .as_ref()
-            .map(|s| chrono::DateTime::parse_from_rfc2822(s).unwrap())
+        self.0.get("Date").as_deref().and_then(parse_release_date)
     }
 
     #[cfg(feature = "chrono")]
@@ -856,8 +865,8 @@ impl Release {
     pub fn valid_until(&self) -> Option<chrono::DateTime<chrono::FixedOffset>> {
         self.0
             .get("Valid-Until")
-            .as_ref()
-            .map(|s| chrono::DateTime::parse_from_rfc2822(s).unwrap())
+            .as_deref()
+            .and_then(parse_release_date)
     }
 
     #[cfg(feature = "chrono")]
